@@ -16,7 +16,7 @@ CFG = {
             "code-store out of gas, address collision}) with the boundary lattice (exactly enough balance, one wei short of gas / of value, "
             "gas = intrinsic, intrinsic-1, pool remainder, pool+1, price 0, refund exactly at and around the cap); blk: 1-5 signed transactions "
             "through ApplyTransaction step by step and through StateProcessor.Process on an identical world (receipts, gas, root compared), "
-            "one third with an invalid transaction; insert: BlockChain.InsertChain of blocks with an invalid transaction / wrong header gasUsed / an EMPTY block claiming gasUsed > 0; "
+            "one third with an invalid transaction, one fifth with the coinbase being the contract address of a failing creation (top-level or inner CREATE) later in the block; balances judged at the committed root (copy+Commit+RawDump, and state re-opened at the root Process committed) as well as on the live objects; insert: BlockChain.InsertChain of blocks with an invalid transaction / wrong header gasUsed / an EMPTY block claiming gasUsed > 0; "
             "fastsync: generated valid chains (blocks of 1, 2, 3 and 5-7 mixed transactions over the same behaviour library, homestead/hf5/eip158/byzantium) imported into a "
             "full node (InsertChain) and a fast node (InsertHeaderChain + InsertReceiptChain with the consensus-encoded receipts); receipts read back through "
             "GetReceiptsByHash, GetBlockReceipts, GetReceipt and judged per receipt on both nodes (gasUsed = cumulative difference, intrinsic <= gasUsed <= gas limit "
